@@ -231,10 +231,10 @@ const tabTech = "constant-table extraction from SSA (enum value-set dataflow ove
 
 var registry = map[string]*Property{
 	"C01": {
-		Decided:    "The finite tables of the writers and the readers are inverse of each other: every single-letter escape the text writer spells is mapped back to the same byte by the text reader and the needs-escaping tests cover delimiter, backslash and control characters (TAB-ESCAPE, writer obligations); typed-null spellings written = names the reader dispatches on = the 13 Ion type names (TAB-NULLKW); identifier-shaped text with a non-symbol meaning is quoted when written as a symbol (TAB-KEYWORD); binary type codes, per-code value types, float sizes and typed-null bytes equal the Ion 1.0 tables (TAB-TYPECODE); every value the writers open is closed on each success path, annotation wrappers included (ORD-VALUE); in Finish the version marker precedes the symbol table, which precedes the buffered values (ORD-LSTFIRST); every length the binary writer declares is computed with the codec, and for the operand, that the payload is appended with (TAB-LENPAY); each binary field uses the codec family Ion 1.0 prescribes on the writing and on the reading side (TAB-CODEC); a symbol token's text is never reinterpreted as a '$n' ID nor replaced by the token's source SID when written (OWN-TEXTAUTH). A flag bit ORed onto a VarUInt/VarInt octet never overlaps the payload (NUM-FLAGOR); a float is classified as zero on the output side only together with its sign bit (NUM-ZEROSIGN); no function that distinguishes negative zero decides a Decimal's sign from its coefficient where the flag may be set (ORD-DECSIGN). A slice emptied by reslicing is not stored into a writer field while a value read from the same field is still used (OWN-RESLICE0). Text taken from a SymbolToken reaches a raw output call of the text writer only in a function that asks symbolIdentifier about it (OWN-SYMQUOTE); no element count (len of anything but bytes) is handed to a length encoder (TAB-LENCOUNT).",
+		Decided:    "The finite tables of the writers and the readers are inverse of each other: every single-letter escape the text writer spells is mapped back to the same byte by the text reader and the needs-escaping tests cover delimiter, backslash and control characters (TAB-ESCAPE, writer obligations); typed-null spellings written = names the reader dispatches on = the 13 Ion type names (TAB-NULLKW); identifier-shaped text with a non-symbol meaning is quoted when written as a symbol (TAB-KEYWORD); binary type codes, per-code value types, float sizes and typed-null bytes equal the Ion 1.0 tables (TAB-TYPECODE); every value the writers open is closed on each success path, annotation wrappers included (ORD-VALUE); in Finish the version marker precedes the symbol table, which precedes the buffered values (ORD-LSTFIRST); every length the binary writer declares is computed with the codec, and for the operand, that the payload is appended with (TAB-LENPAY); each binary field uses the codec family Ion 1.0 prescribes on the writing and on the reading side (TAB-CODEC); a symbol token's text is never reinterpreted as a '$n' ID nor replaced by the token's source SID when written (OWN-TEXTAUTH). A flag bit ORed onto a VarUInt/VarInt octet never overlaps the payload (NUM-FLAGOR); a float is classified as zero on the output side only together with its sign bit (NUM-ZEROSIGN); no function that distinguishes negative zero decides a Decimal's sign from its coefficient where the flag may be set (ORD-DECSIGN). A slice emptied by reslicing is not stored into a writer field while a value read from the same field is still used (OWN-RESLICE0). Text taken from a SymbolToken reaches a raw output call of the text writer only in a function that asks symbolIdentifier about it (OWN-SYMQUOTE); no element count (len of anything but bytes) is handed to a length encoder (TAB-LENCOUNT). No byte buffer kept in a field of a reader or writer is handed out (OWN-SCRATCHOUT: zero such buffers today; the rule constrains any that is introduced).",
 		Necessary:  "A byte escaped as \\X that the reader maps elsewhere, a typed null spelled with another type's name, a reserved word written unquoted, a type code decoded as another type, an unclosed 0xE0 wrapper or a table emitted after its values each change or lose a value named in the property's quantifier.",
 		NotDecided: "payload encodings (ints, floats, decimals, timestamps), xLen = len(appendX), float/decimal/timestamp formatting; each codec's own length function (len(appendX(v)) = xLen(v))",
-		Technique:  tabTech + "; CFG/SSA pairing for ORD; " + "codec-family pairing (length function vs append function per operand, by SSA path) and codec tables compared with Ion 1.0" + "; call-graph fixed point and value flow for OWN-TEXTAUTH" + "; interval check of flag/payload bit overlap (NUM-FLAGOR, with field invariants from every store to an unexported field); dominance of float-zero tests by Signbit tests" + "; alias check on s[:0] stores" + "; def-use closure from SymbolToken.Text to raw writes; type check of len() operands reaching length encoders",
+		Technique:  tabTech + "; CFG/SSA pairing for ORD; " + "codec-family pairing (length function vs append function per operand, by SSA path) and codec tables compared with Ion 1.0" + "; call-graph fixed point and value flow for OWN-TEXTAUTH" + "; interval check of flag/payload bit overlap (NUM-FLAGOR, with field invariants from every store to an unexported field); dominance of float-zero tests by Signbit tests" + "; alias check on s[:0] stores" + "; def-use closure from SymbolToken.Text to raw writes; type check of len() operands reaching length encoders" + "; escape walk of slices derived from receiver buffer fields, through helpers, append-style callees and call sites",
 		DesignRef:  "DESIGN.md §3.4, §3.5, §4 C01",
 		Rules: []Rule{
 			only(rEscape, 18, whatHas("writer:")), rNullKW, rKeyword, rTypecode, rOrdValue, rOrdLstFirst,
@@ -242,6 +242,7 @@ var registry = map[string]*Property{
 			rFlagOr, rZeroSign, rDecSign,
 			rReslice0,
 			rSymQuote, rLenCount,
+			rScrOut,
 		},
 	},
 	"C02": {
@@ -372,13 +373,13 @@ var registry = map[string]*Property{
 		},
 	},
 	"C13": {
-		Decided:     "On the numeric data path of package ion (every file that carries a number, length, symbol ID, exponent or calendar field between the API and the bytes): every integer conversion that can lose value bits or the sign has an operand interval inside the target type, or is the sign-magnitude idiom, or hands its result only to a callee that rejects the wrapped values, or is one of 5 residual rows with a reason (NUM-NARROW); every left shift keeps all value bits — in particular the 7-bits-per-byte VarUInt/VarInt accumulators are checked before each shift (NUM-SHIFT, 2 residual rows: fixed-width loops); every big.Int.Int64()/Uint64() is dominated by IsInt64()/IsUint64() on the same unmodified receiver (NUM-BIG); every float64→float32 narrowing is the losslessness test or dominated by it (NUM-F32); ints and symbol IDs are written as, and read from, the unsigned-magnitude codec Ion 1.0 prescribes — never the sign-magnitude Int subfield decoder (TAB-CODEC, int and symbol obligations); IntSize and IntValue draw the int32 boundary at exactly 2^31 and -2^31-1 (TAB-BOUNDS, accessor obligations). Under each case of a switch over IntSize() the accessor reached is wide enough for that case (TAB-INTSIZE); no typed accessor answers successfully before the value's type was read (TAB-ACCTYPE). The length a binary value announces is computed from the same operands, with the same width functions, as the bytes written after it (TAB-LENPAY). Int64Value refuses a *big.Int only after asking it whether it fits (NUM-BIGFIT).",
+		Decided:     "On the numeric data path of package ion (every file that carries a number, length, symbol ID, exponent or calendar field between the API and the bytes): every integer conversion that can lose value bits or the sign has an operand interval inside the target type, or is the sign-magnitude idiom, or hands its result only to a callee that rejects the wrapped values, or is one of 5 residual rows with a reason (NUM-NARROW); every left shift keeps all value bits — in particular the 7-bits-per-byte VarUInt/VarInt accumulators are checked before each shift (NUM-SHIFT, 2 residual rows: fixed-width loops); every big.Int.Int64()/Uint64() is dominated by IsInt64()/IsUint64() on the same unmodified receiver (NUM-BIG); every float64→float32 narrowing is the losslessness test or dominated by it (NUM-F32); ints and symbol IDs are written as, and read from, the unsigned-magnitude codec Ion 1.0 prescribes — never the sign-magnitude Int subfield decoder (TAB-CODEC, int and symbol obligations); IntSize and IntValue draw the int32 boundary at exactly 2^31 and -2^31-1 (TAB-BOUNDS, accessor obligations). Under each case of a switch over IntSize() the accessor reached is wide enough for that case (TAB-INTSIZE); no typed accessor answers successfully before the value's type was read (TAB-ACCTYPE). The length a binary value announces is computed from the same operands, with the same width functions, as the bytes written after it (TAB-LENPAY). Int64Value refuses a *big.Int only after asking it whether it fits (NUM-BIGFIT). No byte buffer kept in a field of a reader or writer is handed out (OWN-SCRATCHOUT: zero such buffers today; the rule constrains any that is introduced).",
 		Necessary:   "Each rule instance is a place where Go silently wraps, truncates or rounds: uint64(negative SID) (F25, fixed), int(VarUInt >= 2^63) as a year (fixed), a 10-byte VarUInt losing its top bits (fixed), Int64() of a 70-bit coefficient (F19, fixed), float32(x) without the equality test. An unchecked instance on the data path is a number that changes without an error.",
 		NotDecided:  "the arithmetic inside each codec loop (bytes assembled in the right order), typed-null/usage-error behaviour of accessors (NIL-ACC under C06 covers the nil dereference side only); trip counts of the two fixed-width loops in ReadInt/ReadSymbolID (residual rows)",
-		Technique:   numTech + "; enum value-set dataflow of IntSize() against accessor width; path search for a type read before successful exits of accessors" + "; sibling agreement of length functions and append functions" + "; presence of a deciding magnitude test before the too-large exit",
+		Technique:   numTech + "; enum value-set dataflow of IntSize() against accessor width; path search for a type read before successful exits of accessors" + "; sibling agreement of length functions and append functions" + "; presence of a deciding magnitude test before the too-large exit" + "; escape walk of slices derived from receiver buffer fields, through helpers, append-style callees and call sites",
 		DesignRef:   "DESIGN.md §3.3, §4 C13, §0.7",
 		Assumptions: []string{"int is 64 bits (linux/amd64, the analysed configuration)", "len/cap of a string or slice is at most 2^48 (runtime.maxAlloc on 64-bit platforms)", "documented result ranges of time.Time accessors, strconv.ParseInt(_, _, N), io.ReadFull, bufio.Reader.Discard, math/big.Int.BitLen"},
-		Rules:       []Rule{rNarrow, rShift, rBig, rF32, only(rCodec, 12, funcHas("ReadInt", "ReadSymbolID", "WriteInt", "WriteUint", "WriteSymbol", "writeSymbolFromID")), only(rBounds, 5, funcHas("IntValue", "IntSize", "ReadSymbolID")), rIntSize, rAccType, rLenPay, rBigFit},
+		Rules:       []Rule{rNarrow, rShift, rBig, rF32, only(rCodec, 12, funcHas("ReadInt", "ReadSymbolID", "WriteInt", "WriteUint", "WriteSymbol", "writeSymbolFromID")), only(rBounds, 5, funcHas("IntValue", "IntSize", "ReadSymbolID")), rIntSize, rAccType, rLenPay, rBigFit, rScrOut},
 	},
 	"C14": {
 		Decided:    "Exponent arithmetic never wraps silently where this can be decided: every +, -, * and unary minus carried out in a type narrower than 64 bits (the decimal scale is an int32) has a result interval inside the type (NUM-EXP32) — Mul, ShiftL, ShiftR and ParseDecimal widen to int64, check the range and narrow; every narrowing in decimal.go has an in-range operand (NUM-NARROW, decimal.go obligations); no floating-point value takes part in Add, Sub, Mul, Neg, Abs, ShiftL, ShiftR, Cmp, Equal, Sign, Truncate, String, CoEx, ParseDecimal, NewDecimal or anything they call in the module (NUM-NOFLOAT). No function that distinguishes negative zero decides a Decimal's sign from an order test of its coefficient where the flag may be set (ORD-DECSIGN); every big.Int division in decimal.go is the truncating kind or has an Abs dividend (NUM-BIGDIV). Every big.Int method that writes its receiver is called on a big.Int allocated in the same function, so no operation changes an operand or a value handed out earlier (OWN-BIGFRESH).",
